@@ -183,6 +183,304 @@ def python_loops(pkgdir):
     return out
 
 
+# ---------------- the registry mutators (adapter.py) -> step IR of ZI.Mutator
+MUTATOR_CLASSES = ("AdapterRegistry", "VerifyingAdapterRegistry")
+MUTATOR_METHODS = ("register", "unregister", "subscribe", "unsubscribe", "rebuild", "_setBases")
+CONTAINER_MUTATORS = ("append", "extend", "insert", "pop", "popitem", "remove", "clear", "update", "setdefault", "add", "discard",
+                      "add_extendor", "remove_extendor")       # + the lookup object's extendors table: lookups compute from it
+
+
+class TrM:
+    """Statement-level reader of the mutators of the adapter registries.  Every statement becomes a (possibly empty) sequence of
+      hook      the statement calls something / subscripts something: other Python code may run there
+      write     it stores into / deletes from an attribute or an item (of anything but a plain local name), or calls a container
+                mutator (not on a list / dict literal the method made itself).  NOT a write (it changes no answer): putting a
+                mapping fresh from `self._mappingType()` into the tree
+      changed   `self.changed(…)`;   shadow / unshadow: `self.changed = …` (also through `self.__dict__`) / `del self.changed`
+    and calls of the object's own methods (`self.m(…)`, `super().m(…)`, `self.__bases__ = …` -> `_setBases`) are followed into the
+    method's body (resolved along the class's bases as written in the module).  `return` / `raise` end the path, `break` /
+    `continue` end the iteration; a `return` inside a loop ends the iteration too and the loop is followed by a choice between
+    returning and going on (a superset of the real runs); recursion and unknown statement kinds FAIL CLOSED."""
+
+    def __init__(s, pkgdir):
+        import ast, os
+        s.ast = ast
+        tree = ast.parse(open(os.path.join(pkgdir, "adapter.py")).read())
+        s.classes = {n.name: n for n in tree.body if isinstance(n, ast.ClassDef)}
+        s.defs = []          # (lean name, term) in dependency order
+        s.done = {}
+        s.busy = set()
+        s.unknown = []
+        s.naux = 0
+        s.byterm = {}        # term -> name of the definition that already has it (the two classes share most methods)
+
+    def define(s, name, term):
+        if term in s.byterm:
+            return s.byterm[term]
+        s.byterm[term] = name
+        s.defs.append((name, term))
+        return name
+
+    def mro(s, cls):
+        out = []
+        while cls in s.classes:
+            out.append(cls)
+            bases = [b.id for b in s.classes[cls].bases if isinstance(b, s.ast.Name) and b.id in s.classes]
+            cls = bases[0] if bases else None
+        return out
+
+    def resolve(s, start, meth, after=None):
+        """the class (along start's bases, after class `after` for super()) that defines `meth`"""
+        m = s.mro(start)
+        if after is not None:
+            m = m[m.index(after) + 1:] if after in m else []
+        for c in m:
+            for f in s.classes[c].body:
+                if isinstance(f, s.ast.FunctionDef) and f.name == meth:
+                    return c, f
+        return None, None
+
+    def method(s, start, meth, after=None):
+        """Lean name of the translated method, None if it is not a method of these classes"""
+        owner, f = s.resolve(start, meth, after)
+        if f is None:
+            return None
+        key = (start, owner, meth)
+        name = "mp_%s_%s_%s" % (start, owner, meth.strip("_") or meth)
+        if key in s.done:
+            return s.done[key]
+        if key in s.busy:
+            s.unknown.append("recursion through %s.%s" % (owner, meth))
+            return name
+        s.busy.add(key)
+        ctx = dict(start=start, owner=owner, fresh=set(), scratch=set(), name=name, delegated=s.delegated(start))
+        term = s.block(f.body, ".done", ctx, False)
+        s.busy.discard(key)
+        s.done[key] = s.define(name, term)
+        return s.done[key]
+
+    def delegated(s, start):
+        """names copied into the instance dictionary by _createLookup (`for name in self._delegated: self.__dict__[name] = …`)"""
+        ast = s.ast
+        for c in s.mro(start):
+            for n in s.classes[c].body:
+                if isinstance(n, ast.Assign) and any(isinstance(t, ast.Name) and t.id == "_delegated" for t in n.targets):
+                    try:
+                        return tuple(ast.literal_eval(n.value))
+                    except Exception:  # noqa
+                        return None
+        return ()
+
+    # -- helpers
+    def is_self_attr(s, n, attr=None):
+        ast = s.ast
+        return isinstance(n, ast.Attribute) and isinstance(n.value, ast.Name) and n.value.id == "self" and (attr is None or n.attr == attr)
+
+    def is_self_dict_item(s, n):
+        ast = s.ast
+        return isinstance(n, ast.Subscript) and s.is_self_attr(n.value, "__dict__")
+
+    def is_fresh_mapping(s, n, ctx):
+        ast = s.ast
+        if isinstance(n, ast.Name) and n.id in ctx["fresh"]:
+            return True
+        return isinstance(n, ast.Call) and s.is_self_attr(n.func, "_mappingType") and not n.args and not n.keywords
+
+    def own_calls(s, node, ctx):
+        """the object's own methods called inside an expression / statement, in source order -> Lean names"""
+        ast = s.ast
+        out = []
+        for n in sorted((n for n in s.walk_own(node) if isinstance(n, ast.Call)), key=lambda n: (n.lineno, n.col_offset)):
+            if isinstance(n.func, ast.Attribute):
+                f = n.func
+                name = None
+                if s.is_self_attr(f) and f.attr != "changed":
+                    name = s.method(ctx["start"], f.attr)
+                elif isinstance(f.value, ast.Call) and isinstance(f.value.func, ast.Name) and f.value.func.id == "super":
+                    name = s.method(ctx["start"], f.attr, after=ctx["owner"])
+                if name:
+                    out.append(name)
+        return out
+
+    def walk_own(s, node):
+        """ast.walk without the bodies of nested functions / classes"""
+        ast = s.ast
+        todo = [node]
+        while todo:
+            n = todo.pop()
+            yield n
+            todo.extend(c for c in ast.iter_child_nodes(n) if not isinstance(c, (ast.FunctionDef, ast.Lambda, ast.ClassDef)))
+
+    def has_call(s, node):
+        ast = s.ast
+        return any(isinstance(n, (ast.Call, ast.Subscript, ast.Yield, ast.YieldFrom)) for n in s.walk_own(node))
+
+    def escapes(s, stmts, in_loop_ok=True):
+        """does control leave the statement list other than by falling through?"""
+        ast = s.ast
+        for st in stmts:
+            if isinstance(st, (ast.Return, ast.Raise)):
+                return True
+            if isinstance(st, (ast.Break, ast.Continue)) and in_loop_ok:
+                return True
+            if isinstance(st, (ast.If, ast.Try, ast.With)):
+                subs = [st.body, getattr(st, "orelse", []), getattr(st, "finalbody", [])] + [h.body for h in getattr(st, "handlers", [])]
+                if any(s.escapes(b, in_loop_ok) for b in subs):
+                    return True
+            if isinstance(st, (ast.For, ast.While)):
+                if s.escapes(st.body, False) or s.escapes(st.orelse, in_loop_ok):
+                    return True
+        return False
+
+    def share(s, term, ctx):
+        """a continuation used twice is emitted once, as a definition of its own"""
+        if len(term) < 60:
+            return term
+        s.naux += 1
+        return s.define("%s_k%d" % (ctx["name"], s.naux), term)
+
+    def ops(s, ops, tail):
+        for o in reversed(ops):
+            if o.startswith("CALL "):
+                tail = "(.andThen %s %s)" % (o[5:], tail)
+            elif not (o == ".hook" and tail.startswith("(.seq .hook ")):        # consecutive hooks are one hook
+                tail = "(.seq %s %s)" % (o, tail)
+        return tail
+
+    def simple(s, st, ctx):
+        """-> list of ops for a simple statement"""
+        ast = s.ast
+        out = []
+        if s.has_call(st):
+            out.append(".hook")
+        # self.changed(...)
+        if isinstance(st, ast.Expr) and isinstance(st.value, ast.Call) and s.is_self_attr(st.value.func, "changed"):
+            return out + [".changed"]
+        if any(isinstance(n, ast.Call) and s.is_self_attr(n.func, "changed") for n in s.walk_own(st)):
+            s.unknown.append("self.changed(...) inside a larger statement at line %d" % st.lineno)
+        out += ["CALL " + n for n in s.own_calls(st, ctx)]
+        targets = []
+        if isinstance(st, ast.Assign):
+            targets = list(st.targets)
+        elif isinstance(st, (ast.AugAssign, ast.AnnAssign)):
+            targets = [st.target]
+        elif isinstance(st, ast.Delete):
+            targets = list(st.targets)
+        flat = []
+        for t in targets:
+            flat.extend(t.elts if isinstance(t, (ast.Tuple, ast.List)) else [t])
+        for t in flat:
+            if isinstance(t, ast.Name):
+                ctx["fresh"].discard(t.id)
+                ctx["scratch"].discard(t.id)
+                if isinstance(st, ast.Assign) and s.is_fresh_mapping(st.value, ctx):
+                    ctx["fresh"].add(t.id)
+                elif isinstance(st, ast.Assign) and isinstance(st.value, (ast.List, ast.Dict, ast.Set, ast.ListComp, ast.DictComp, ast.SetComp)):
+                    ctx["scratch"].add(t.id)           # a container made here: the method's own scratch data
+                continue
+            if s.is_self_attr(t, "changed"):
+                out.append(".unshadow" if isinstance(st, ast.Delete) else ".shadow")
+                continue
+            if s.is_self_dict_item(t):
+                k = t.slice
+                if isinstance(k, ast.Constant):
+                    names = (k.value,)
+                elif ctx["delegated"] is not None and isinstance(k, ast.Name):
+                    names = ctx["delegated"]           # `for name in self._delegated: self.__dict__[name] = …`
+                else:
+                    names = ("changed",)               # unknown key: assume the worst
+                if "changed" in names:
+                    out.append(".unshadow" if isinstance(st, ast.Delete) else ".shadow")
+                out += [".write", ".hook"]
+                continue
+            if s.is_self_attr(t, "__bases__") and not isinstance(st, ast.Delete):
+                n = s.method(ctx["start"], "_setBases")
+                out.append("CALL " + n if n else ".write")
+                continue
+            if isinstance(t, (ast.Subscript, ast.Attribute)):
+                if isinstance(st, ast.Assign) and isinstance(t, ast.Subscript) and s.is_fresh_mapping(st.value, ctx):
+                    out.append(".hook")                # an empty mapping goes into the tree: no answer changes
+                else:
+                    out += [".write", ".hook"]
+                continue
+            s.unknown.append("assignment target at line %d" % st.lineno)
+        if isinstance(st, ast.Expr) and isinstance(st.value, ast.Call) and isinstance(st.value.func, ast.Attribute):
+            f = st.value.func
+            if f.attr in CONTAINER_MUTATORS and not s.is_self_attr(f) and not (isinstance(f.value, ast.Name) and f.value.id in ctx["scratch"]):
+                if not (f.attr == "append" and len(st.value.args) == 1 and s.is_fresh_mapping(st.value.args[0], ctx)):
+                    out += [".write", ".hook"]
+        return out
+
+    def block(s, stmts, cont, ctx, in_loop):
+        """translate statements followed by the continuation `cont` (a Lean term)"""
+        ast = s.ast
+        if not stmts:
+            return cont
+        st, rest = stmts[0], stmts[1:]
+        if isinstance(st, (ast.FunctionDef, ast.ClassDef, ast.Pass, ast.Import, ast.ImportFrom, ast.Global, ast.Nonlocal)):
+            return s.block(rest, cont, ctx, in_loop)
+        if isinstance(st, ast.Return):
+            return s.ops(s.simple(ast.Expr(value=st.value, lineno=st.lineno), ctx) if st.value is not None else [], ".done")
+        if isinstance(st, ast.Raise):
+            return ".done"
+        if isinstance(st, (ast.Break, ast.Continue)):
+            if not in_loop:
+                s.unknown.append("break outside a loop at line %d" % st.lineno)
+            return ".done"
+        if isinstance(st, ast.If):
+            head = [".hook"] if s.has_call(st.test) else []
+            if s.escapes(st.body) or s.escapes(st.orelse):
+                k = s.share(s.block(rest, cont, ctx, in_loop), ctx)
+                return s.ops(head, "(.branch %s %s)" % (s.block(st.body, k, ctx, in_loop), s.block(st.orelse, k, ctx, in_loop)))
+            both = "(.branch %s %s)" % (s.block(st.body, ".done", ctx, False), s.block(st.orelse, ".done", ctx, False))
+            return s.ops(head, "(.andThen %s %s)" % (both, s.block(rest, cont, ctx, in_loop)))
+        if isinstance(st, (ast.For, ast.While)):
+            head = [".hook"] if s.has_call(st.iter if isinstance(st, ast.For) else st.test) else []
+            after = s.block(rest, cont, ctx, in_loop)
+            if st.orelse:
+                after = s.share(after, ctx)
+                after = "(.branch %s %s)" % (s.block(st.orelse, after, ctx, in_loop), after)
+            if any(isinstance(n, ast.Return) for n in s.walk_own(st)):
+                after = "(.branch .done %s)" % after                                # the loop was left by `return`
+            body = s.ops([".hook"], s.block(st.body, ".done", ctx, True))           # fetching the next item may run code
+            return s.ops(head, "(.loop %s %s)" % (body, after))
+        if isinstance(st, ast.Try):
+            tail = list(st.finalbody) + rest
+            main = s.block(list(st.body) + list(st.orelse) + tail, cont, ctx, in_loop)
+            for h in st.handlers:
+                main = "(.branch %s %s)" % (main, s.block(list(h.body) + tail, cont, ctx, in_loop))
+            return main
+        if isinstance(st, ast.With):
+            return s.ops([".hook"], s.block(list(st.body) + rest, cont, ctx, in_loop))
+        if isinstance(st, (ast.Expr, ast.Assign, ast.AugAssign, ast.AnnAssign, ast.Delete, ast.Assert)):
+            return s.ops(s.simple(st, ctx), s.block(rest, cont, ctx, in_loop))
+        s.unknown.append("%s at line %d" % (type(st).__name__, st.lineno))
+        return s.block(rest, cont, ctx, in_loop)
+
+
+def python_mutators(pkgdir):
+    """-> Lean text: the step IR of every mutator of both registry classes and the obligation `mutators_wipe`"""
+    tr = TrM(pkgdir)
+    tops = []
+    for cls in MUTATOR_CLASSES:
+        for m in MUTATOR_METHODS:
+            n = tr.method(cls, m)
+            if n is None:
+                tr.unknown.append("no method %s.%s" % (cls, m))
+            else:
+                tops.append(("%s_%s" % (cls, m.strip("_")), n))
+    out = ["def %s : ZI.Mutator.Prog := %s" % d for d in tr.defs]
+    out.append("def mutatorProgs : List (String × ZI.Mutator.Prog) := [%s]" % ", ".join('("mp_%s", %s)' % t for t in tops))
+    out.append("#eval mutatorProgs.map (fun x => (x.1, ZI.Mutator.wipes x.2))")
+    if tr.unknown:
+        out.append("-- FAIL-CLOSED: unclassified statements in the mutators: %r" % (tr.unknown,))
+        out.append("theorem mutators_wipe : False := by decide")
+    else:
+        out.append("theorem mutators_wipe : mutatorProgs.all (fun x => ZI.Mutator.wipes x.2) = true ∧ mutatorProgs.length = %d := by decide"
+                   % (len(MUTATOR_CLASSES) * len(MUTATOR_METHODS)))
+    return "\n".join(out)
+
+
 def extract(path, name):
     src = strip(open(path).read())
     args, body = func_body(src, name)
@@ -195,13 +493,14 @@ def extract(path, name):
 if __name__ == '__main__':
     path = sys.argv[1]
     import os
-    print("import ZI.Own\nimport ZI.Detach\nopen ZI.Own\nopen ZI.Own.Prog\nopen ZI.Own.Op")
+    print("import ZI.Own\nimport ZI.Detach\nimport ZI.Mutator\nopen ZI.Own\nopen ZI.Own.Prog\nopen ZI.Own.Op")
     for fn in ['_lookup', '_lookupAll', '_subscriptions']:
         print("def dprog_%s : ZI.Detach.Prog := %s" % (fn.strip('_'), extract_detach(path, fn)))
         print("theorem detach_%s : ZI.Detach.check dprog_%s {} = true := by decide" % (fn.strip('_'), fn.strip('_')))
     loops = python_loops(os.path.dirname(path))
     print("def loopModes : List (String × Bool) := [%s]" % ", ".join('("%s", %s)' % (a, "true" if b else "false") for a, b in loops))
     print("theorem loops_snapshot : loopModes.all (·.2) = true ∧ loopModes.length ≥ 3 := by decide")
+    print(python_mutators(os.path.dirname(path)))
     fns = sys.argv[2:] or ['_lookup', '_lookupAll', '_subscriptions', '_verify']
     for fn in fns:
         term, tr = extract(path, fn)
